@@ -59,6 +59,8 @@ PIPELINES = [
     [["root_attach", {}], ["punctuation_verylow", {}]],
     [["negra_mark_heads", {}], ["binarize", {}]],
     [["collapse_unary_chains", {}]],
+    [["collapse_unary_chains", {}], ["uncollapse_unary_chains", {}]],
+    [["add_topnode", {}], ["collapse_unary_chains", {}], ["uncollapse_unary_chains", {}]],
 ]
 
 
